@@ -117,6 +117,10 @@ func (r *homeChainPoller) poll() {
 				r.mutex.Lock()
 				r.failedPolls++
 				r.mutex.Unlock()
+			} else {
+				r.mutex.Lock()
+				r.failedPolls = 0
+				r.mutex.Unlock()
 			}
 		}
 	}
